@@ -31,6 +31,10 @@ type schedVec struct {
 	} `json:"sched"`
 	Final  []string `json:"final"`
 	Locked bool     `json:"locked"`
+	// a schedule of the model in which the mutex is given back before the build (CowCache with EarlyUnlock) that the
+	// mutex forbids: the replay must prove it infeasible - a goroutine sent to its locked load while another sits
+	// between its locked load and its store must not arrive
+	Forbidden bool `json:"forbidden,omitempty"`
 }
 
 type c09Case struct {
@@ -108,7 +112,8 @@ func cacheCall(cache string, t reflect.Type, k int) string {
 		b, err := proto.Marshal(v.Interface())
 		return fmt.Sprintf("%x|%v", b, err)
 	case "proto.type":
-		return proto.TypeOf(t).String()
+		r := proto.TypeOf(t)
+		return fmt.Sprintf("%s@%p", r, r)
 	case "thrift.encoder":
 		v := reflect.New(t).Elem()
 		v.Field(0).SetInt(int64(k))
@@ -236,12 +241,43 @@ func c09Gated(c *Ctx, k c09Case) {
 			followed = false
 		}
 	}
+	holder := ""           // the goroutine between its locked load and the end of its call
+	blockedAsDemanded := false
+	exclusionBroken := ""
 	for i, s := range v.Sched {
 		if !followed || stuck {
 			break
 		}
 		c.Eval(1)
 		cur := await(s.P)
+		if v.Forbidden && s.Ev == "load-locked" && holder != "" && holder != s.P && cur == "load" {
+			// the mutex is taken: s.P must not get to its locked load
+			delete(at, s.P)
+			g.release[s.P] <- struct{}{}
+			patience := time.After(200 * time.Millisecond)
+			arrived := false
+			for !arrived {
+				select {
+				case r := <-g.arrive:
+					at[r.proc] = r.ev
+					arrived = r.proc == s.P
+				case <-patience:
+					arrived = true
+				}
+			}
+			if _, ok := at[s.P]; !ok {
+				blockedAsDemanded = true
+				followed = false
+				break
+			}
+			exclusionBroken = fmt.Sprintf("step %d: %s reached its load behind the mutex (%s) while %s had not stored yet", i, s.P, at[s.P], holder)
+			if at[s.P] != "load-locked" {
+				followed = false
+				break
+			}
+			pos[s.P]++
+			continue
+		}
 		switch s.Ev {
 		case "load":
 			if cur != "call" {
@@ -259,6 +295,7 @@ func c09Gated(c *Ctx, k c09Case) {
 			if nx := step(s.P); nx != "load-locked" {
 				bad(i, s.P, "load-locked("+s.T+")", nx)
 			}
+			holder = s.P
 		case "store":
 			if cur != "load" && cur != "load-locked" {
 				bad(i, s.P, "store("+s.T+")", cur)
@@ -271,12 +308,18 @@ func c09Gated(c *Ctx, k c09Case) {
 			if nx := step(s.P); nx != "call" && nx != "end" {
 				bad(i, s.P, "returns after its store", nx)
 			}
+			if holder == s.P {
+				holder = ""
+			}
 		}
 		pos[s.P]++
 		// a call with no further scheduled cache step (a hit) runs to its end now: with the mutex it must unlock
 		if followed && !stuck {
 			if n := pos[s.P]; n >= len(steps[s.P]) || steps[s.P][n] == "load" {
 				finishCall(i, s.P)
+				if holder == s.P {
+					holder = ""
+				}
 			}
 		}
 	}
@@ -328,6 +371,32 @@ func c09Gated(c *Ctx, k c09Case) {
 		fail("published maps are immutable", "a published map never changes", m)
 	}
 	g.mu.Unlock()
+	if k.Cache == "proto.type" {
+		// alone, TypeOf hands out one and the same Type for a Go type, whoever asks and whenever
+		identity := true
+		for _, tl := range sortedKeys(types) {
+			now := cacheCall(k.Cache, types[tl], 1)
+			for _, p := range procs {
+				for i, l := range progs[p] {
+					if l == tl && i < len(results[p]) && results[p][i] != now {
+						identity = false
+						fail("proto.TypeOf, the Type handed out for one Go type", "the same Type for every caller and every later call: "+now, p+" was handed "+results[p][i]+
+							map[bool]string{true: " (" + exclusionBroken + ")", false: ""}[exclusionBroken != ""])
+					}
+				}
+			}
+		}
+		if exclusionBroken != "" && identity {
+			drift("mutual exclusion of the locked section", "a schedule the mutex forbids proves infeasible", exclusionBroken)
+		}
+	}
+	if v.Forbidden {
+		if !blockedAsDemanded && exclusionBroken == "" && !stuck {
+			drift("gated replay of a forbidden schedule", "a goroutine is sent to a locked load while the mutex is held", "the schedule ended before that")
+		}
+		theGate = nil
+		return
+	}
 	if !followed {
 		return
 	}
